@@ -80,23 +80,7 @@ func genC09(tier string, r *rng, emit func(string)) {
 			}
 		}
 	}
-	// products that must be refused (misfitting extents) leave every operand as it was - the
-	// dispatching Dot undoes its temporary transposition of the matrix also when MatVecMul refuses
-	for _, dt := range []string{"f64", "f32"} {
-		for _, c := range []string{
-			"new:rm:2,3:1;new:rm:3:2;dot:1:0:safe", "new:rm:2,3:1;new:rm:4:2;dot:1:0:safe", "new:rm:2,3:1;new:rm:2:2;dot:0:1:safe",
-			"new:rm:2,3:1;new:rm:2,3:2;dot:0:1:safe",
-			"new:rm:2,3:1;new:rm:3:2;new:rm:5:50;dot:1:0:reuse.2", "new:rm:2,3:1;new:rm:3:2;new:rm:3:50;dot:1:0:incr.2",
-			"new:rm:3,2:1;T:0:1,0;new:rm:3:2;dot:1:0:safe", "new:rm:2,3:1;new:rm:3:2;dot:1:0:safe;lin:matvec:0:1:safe",
-			"new:rm:2,3:1;new:rm:2:2;new:rm:2:50;dot:1:0:reuse.2;dot:1:0:safe",
-			// a destination that is too BIG is refused as well, and left as it was
-			"new:rm:2,3:1;new:rm:2:2;new:rm:5:50;dot:1:0:reuse.2", "new:rm:2,2:1;new:rm:2,2:2;new:rm:3,3:50;lin:matmul:0:1:reuse.2",
-			"new:rm:2,3:1;new:rm:3:2;new:rm:4:50;lin:matvec:0:1:reuse.2", "new:rm:2:1;new:rm:3:2;new:rm:3,3:50;lin:outer:0:1:reuse.2",
-			"new:rm:2,2:1;new:rm:2,2:2;new:rm:3,3:50;lin:matmul:0:1:incr.2", "new:rm:2,2:1;new:rm:2,2:2;new:rm:3:50;lin:matmul:0:1:reuse.2",
-		} {
-			emit(fmt.Sprintf("prog %s %s", dt, c))
-		}
-	}
+	refusedProducts(emit)
 	// negative contraction axes: refused (the index check comes first) - and the caller's axes lists
 	// are never written to
 	for _, c := range []string{"new:rm:2,3,4:1;new:rm:4,3,2:2;tmul:0:1:-1,1:-3,1", "new:rm:2,3:1;new:rm:3,2:2;tmul:0:1:-1:0", "new:rm:2,3:1;new:rm:3,2:2;tmul:0:1:1:-2"} {
@@ -370,5 +354,27 @@ func genCLin(emit func(string)) {
 			emit(fmt.Sprintf("clin %s new:rm:%s:1;new:rm:3:2%s;lin:matvec:0:1:safe", dt, sa, ta))
 		}
 		emit(fmt.Sprintf("clin %s new:rm:3:1;new:rm:2:4;lin:outer:0:1:safe", dt))
+	}
+}
+
+// refusedProducts: products that must be refused (misfitting extents, wrong destinations) leave
+// every operand as it was - the dispatching Dot undoes its temporary transposition of the matrix
+// also when MatVecMul refuses; the operands are read again afterwards.  Shared by C09 and C19.
+func refusedProducts(emit func(string)) {
+	for _, dt := range []string{"f64", "f32"} {
+		for _, c := range []string{
+			"new:rm:2,3:1;new:rm:3:2;dot:1:0:safe", "new:rm:2,3:1;new:rm:4:2;dot:1:0:safe", "new:rm:2,3:1;new:rm:2:2;dot:0:1:safe",
+			"new:rm:2,3:1;new:rm:2,3:2;dot:0:1:safe",
+			"new:rm:2,3:1;new:rm:3:2;new:rm:5:50;dot:1:0:reuse.2", "new:rm:2,3:1;new:rm:3:2;new:rm:3:50;dot:1:0:incr.2",
+			"new:rm:3,2:1;T:0:1,0;new:rm:3:2;dot:1:0:safe", "new:rm:2,3:1;new:rm:3:2;dot:1:0:safe;lin:matvec:0:1:safe",
+			"new:rm:2,3:1;new:rm:2:2;new:rm:2:50;dot:1:0:reuse.2;dot:1:0:safe",
+			// a destination that is too BIG is refused as well, and left as it was
+			"new:rm:2,3:1;new:rm:2:2;new:rm:5:50;dot:1:0:reuse.2", "new:rm:2,2:1;new:rm:2,2:2;new:rm:3,3:50;lin:matmul:0:1:reuse.2",
+			"new:rm:2,3:1;new:rm:3:2;new:rm:4:50;lin:matvec:0:1:reuse.2", "new:rm:2:1;new:rm:3:2;new:rm:3,3:50;lin:outer:0:1:reuse.2",
+			"new:rm:2,2:1;new:rm:2,2:2;new:rm:3,3:50;lin:matmul:0:1:incr.2", "new:rm:2,2:1;new:rm:2,2:2;new:rm:3:50;lin:matmul:0:1:reuse.2",
+		} {
+			emit(fmt.Sprintf("prog %s %s", dt, c))
+			emit(fmt.Sprintf("prog %s %s;at:0:1,1;clone:0;T:0:_;at:0:1,1", dt, c))
+		}
 	}
 }
